@@ -78,12 +78,14 @@ def decStep : List Nat → Nat × Nat
                 else (0xFFFD, 3)
     else (0xFFFD, 1)
 
-/-- `bytes.decode('utf-8', 'replace')` -/
-def utf8Decode : List Nat → Str
-  | [] => []
-  | b :: bs => (decStep (b :: bs)).1 :: utf8Decode (bs.drop ((decStep (b :: bs)).2 - 1))
-termination_by l => l.length
-decreasing_by simp only [List.length_drop, List.length_cons]; omega
+/-- `bytes.decode('utf-8', 'replace')`; `fuel` bounds the number of code points produced -/
+def utf8DecodeF : Nat → List Nat → Str
+  | 0, _ => []
+  | _, [] => []
+  | fuel + 1, b :: bs =>
+    (decStep (b :: bs)).1 :: utf8DecodeF fuel (bs.drop ((decStep (b :: bs)).2 - 1))
+
+def utf8Decode (l : List Nat) : Str := utf8DecodeF l.length l
 
 /-! ## percent coding -/
 
@@ -205,40 +207,55 @@ def truthyI : Option Int → Option Int
   | some i => if i = 0 then none else some i
   | none => none
 
+inductive AuthOut
+  | ok (auth : Str)
+  | assertionError
+  | unicodeEncodeError
+
+open Extracted in
+/-- the `auth` prefix of `DBConnection.uri` -/
+def authOf (c : Conn) : AuthOut :=
+  match truthyS c.user with
+  | some u =>
+    match quote userSafe u with
+    | none => .unicodeEncodeError
+    | some qu =>
+      match truthyS c.password with
+      | some p =>
+        match quote passwordSafe p with
+        | none => .unicodeEncodeError
+        | some qp => .ok (qu ++ passwordSep ++ qp ++ authEnd)
+      | none => .ok (qu ++ authEnd)
+  | none =>
+    match truthyS c.password with
+    | some _ => .assertionError
+    | none => .ok []
+
+open Extracted in
+/-- `if self.host: uri += self.host; if self.port: uri += ':%d' % self.port` -/
+def hostportOf (c : Conn) : Str :=
+  match truthyS c.host with
+  | some h =>
+    match truthyI c.port with
+    | some p => h ++ portSep ++ fmtD p
+    | none => h
+  | none => []
+
+open Extracted in
+/-- `db = self.db; if db.startswith('/'): db = db[1:]` -/
+def dbOf (c : Conn) : Str :=
+  if startsWith dbStrip c.db then c.db.drop dbStrip.length else c.db
+
 open Extracted in
 /-- `DBConnection.uri` -/
 def genericUri (c : Conn) : BuildOut :=
-  let auth : Option (Option Str) :=       -- none = AssertionError, some none = encode error
-    match truthyS c.user with
-    | some u =>
-      match quote userSafe u with
-      | none => some none
-      | some qu =>
-        match truthyS c.password with
-        | some p =>
-          match quote passwordSafe p with
-          | none => some none
-          | some qp => some (some (qu ++ passwordSep ++ qp ++ authEnd))
-        | none => some (some (qu ++ authEnd))
-    | none =>
-      match truthyS c.password with
-      | some _ => none
-      | none => some (some [])
-  match auth with
-  | none => .assertionError
-  | some none => .unicodeEncodeError
-  | some (some auth) =>
-    let hostport : Str :=
-      match truthyS c.host with
-      | some h =>
-        match truthyI c.port with
-        | some p => h ++ portSep ++ fmtD p
-        | none => h
-      | none => []
-    let db := if startsWith dbStrip c.db then c.db.drop dbStrip.length else c.db
-    match quote dbSafe db with
+  match authOf c with
+  | .assertionError => .assertionError
+  | .unicodeEncodeError => .unicodeEncodeError
+  | .ok auth =>
+    match quote dbSafe (dbOf c) with
     | none => .unicodeEncodeError
-    | some qdb => .ok (c.scheme ++ schemeSep ++ auth ++ hostport ++ pathSep ++ qdb)
+    | some qdb => .ok (c.scheme ++ schemeSep ++ auth ++ hostportOf c ++ pathSep ++ qdb)
 
 open Extracted in
 /-- `SQLiteConnection.uri` (`filename` is a `str`) -/
@@ -270,12 +287,25 @@ def splitScheme (url : Str) : Str × Str :=
 
 def isNetlocEnd (c : Nat) : Bool := c == 47 || c == 63 || c == 35
 
-/-- `uses_params` of CPython 3.12 (the empty scheme is a member) -/
-def usesParams : List String :=
-  ["", "ftp", "hdl", "prospero", "http", "imap", "https", "shttp", "rtsp", "rtsps", "rtspu",
-   "sip", "sips", "mms", "sftp", "tel"]
-
-def strOf (s : String) : Str := s.toList.map Char.toNat
+/-- `uses_params` of CPython 3.12 as code points (the empty scheme is a member):
+    '' 'ftp' 'hdl' 'prospero' 'http' 'imap' 'https' 'shttp' 'rtsp' 'rtsps' 'rtspu' 'sip' 'sips' 'mms' 'sftp' 'tel' -/
+def usesParams : List Str :=
+  [[],
+   [102, 116, 112],
+   [104, 100, 108],
+   [112, 114, 111, 115, 112, 101, 114, 111],
+   [104, 116, 116, 112],
+   [105, 109, 97, 112],
+   [104, 116, 116, 112, 115],
+   [115, 104, 116, 116, 112],
+   [114, 116, 115, 112],
+   [114, 116, 115, 112, 115],
+   [114, 116, 115, 112, 117],
+   [115, 105, 112],
+   [115, 105, 112, 115],
+   [109, 109, 115],
+   [115, 102, 116, 112],
+   [116, 101, 108]]
 
 /-- `_splitparams(url)[0]` (called only when `;` occurs in `url`) -/
 def splitParamsPath (url : Str) : Str :=
@@ -318,7 +348,7 @@ def urlparse (url0 : Str) : SplitOut :=
       | some (u, q) => (u, q)
       | none => (url, [])
     let path :=
-      if usesParams.any (fun s => strOf s == scheme) && path.contains 59 then splitParamsPath path
+      if usesParams.contains scheme && path.contains 59 then splitParamsPath path
       else path
     .ok ⟨scheme, netloc, path, query⟩
 
@@ -331,31 +361,39 @@ def userinfo (netloc : Str) : Option Str × Option Str :=
     | none => (some ui, none)
   | none => (none, none)
 
+/-- `netloc.rpartition('@')[2]` -/
+def hostpart (netloc : Str) : Str :=
+  match rbreakOn 64 netloc with
+  | some (_, h) => h
+  | none => netloc
+
 /-- `_hostinfo` for a netloc without brackets: (hostname, port text) -/
 def hostinfo (netloc : Str) : Str × Option Str :=
-  let hi := match rbreakOn 64 netloc with
-    | some (_, h) => h
-    | none => netloc
-  match breakOn 58 hi with
+  match breakOn 58 (hostpart netloc) with
   | some (h, p) => (h, if p.isEmpty then none else some p)
-  | none => (hi, none)
+  | none => (hostpart netloc, none)
+
+/-- lower-casing in `.hostname`: everything before the first `%` (IPv6 zone separator) -/
+def lowerHost (h : Str) : Str :=
+  match breakOn 37 h with
+  | some (a, z) => a.map lowerAscii ++ [37] ++ z
+  | none => h.map lowerAscii
+
+def hostnameOf (h : Str) : Option Str := if h.isEmpty then none else some (lowerHost h)
 
 /-- `.hostname` -/
-def hostname (netloc : Str) : Option Str :=
-  let h := (hostinfo netloc).1
-  if h.isEmpty then none
-  else match breakOn 37 h with
-    | some (a, z) => some (a.map lowerAscii ++ [37] ++ z)
-    | none => some (h.map lowerAscii)
+def hostname (netloc : Str) : Option Str := hostnameOf (hostinfo netloc).1
 
-/-- `.port`: `none` = ValueError -/
-def portOf (netloc : Str) : Option (Option Nat) :=
-  match (hostinfo netloc).2 with
+/-- `.port` from the port text: `none` = ValueError -/
+def portOfText : Option Str → Option (Option Nat)
   | none => some none
   | some p =>
     if p.all isDigit then
       (if parseDec p ≤ 65535 then some (some (parseDec p)) else none)
     else none
+
+/-- `.port`: `none` = ValueError -/
+def portOf (netloc : Str) : Option (Option Nat) := portOfText (hostinfo netloc).2
 
 /-- `replace('+', ' ')` -/
 def plusToSpace (s : Str) : Str := s.map fun c => if c = 43 then 32 else c
